@@ -71,6 +71,8 @@ class SkyConfig:
     nref: int = 2
     nunk: int = 2
     rweight: float | None = None
+    resolution: int = 50
+    max_d: int = 12
     print_every: int = 1
     lo: list = field(default_factory=list)   # derived: half-steps per scale per bin
     hi: list = field(default_factory=list)
@@ -87,7 +89,7 @@ class SkyConfig:
     def yaw_config(self):
         yaw = data.import_yaw()
         return yaw.Configuration.create(rmin=list(self.rmin), rmax=list(self.rmax), unit=self.unit, edges=list(self.edges),
-                                        closed=self.closed, rweight=self.rweight)
+                                        closed=self.closed, rweight=self.rweight, resolution=self.resolution)
 
     def derive(self):
         """Lo/Hi per scale and bin (odd half-steps) from the REAL scale -> angle
@@ -116,7 +118,7 @@ class SkyConfig:
         seq = lambda rows: "<<" + ", ".join("<<" + ", ".join(str(x) for x in r) + ">>" for r in rows) + ">>"
         return dict(M=self.M, Slots=self.slots, Centres="<<" + ", ".join(map(str, self.centres)) + ">>", NB=self.nb,
                     Closed=f'"{self.closed}"', NS=len(self.rmin), Lo=seq(self.lo), Hi=seq(self.hi), ThetaMaxImpl=self.theta_impl,
-                    NRef=self.nref, NUnk=self.nunk, ZCells=self.zcells, Weights=self.weights, PrintEvery=self.print_every, Deviations=deviations)
+                    NRef=self.nref, NUnk=self.nunk, ZCells=self.zcells, Weights=self.weights, MaxD=self.max_d, PrintEvery=self.print_every, Deviations=deviations)
 
     def zvalue(self, cell: int) -> float:
         e = self.edges
@@ -131,7 +133,7 @@ class SkyConfig:
         return (e[b - 1] + e[b]) / 2.0
 
 
-DESIGN_INVS = ["PruningLosesNothing", "LinkSymmetric", "SelfLinked", "TotalsAgree", "MetaDescribesPatch"]
+DESIGN_INVS = ["PruningLosesNothing", "LinkSymmetric", "SelfLinked", "TotalsAgree", "ByDistanceAgrees", "MetaDescribesPatch"]
 SYM_INVS = ["RotationInvariant", "ReflectionInvariant", "WeightScaling", "SplitAdditive"]
 
 
@@ -223,3 +225,34 @@ def nested(t):
     if isinstance(t, (tuple, list)):
         return [nested(x) for x in t]
     return t
+
+
+def separation_weights(sc: SkyConfig, s: int, b: int):
+    """Power-law factor per lattice distance d (steps) for scale s at the centre of bin b, following
+    the property: the factor of the FINE separation bin (logarithmic bins between the smallest and the
+    largest limit of all scales, plus the limits themselves) that contains the pair, evaluated at the
+    logarithmic centre of that bin and normalised by the sum over all fine bins.  Independent of the
+    library's implementation (plain math)."""
+    cfg = sc.yaw_config()
+    z = cfg.binning.binning.mids[b]
+    amin, amax = cfg.scales.scales.get_angle_radian(z, cosmology=cfg.cosmology)
+    lims = sorted(set([math.log10(x) for x in list(amin) + list(amax)]))
+    lo, hi = lims[0], lims[-1]
+    grid = sorted(set([lo + (hi - lo) * k / sc.resolution for k in range(sc.resolution + 1)] + lims))
+    # merge numerically identical edges (np.unique semantics on floats)
+    edges = [10.0 ** g for g in grid]
+    mids = [10.0 ** ((math.log10(edges[k]) + math.log10(edges[k + 1])) / 2.0) for k in range(len(edges) - 1)]
+    wts = [m ** sc.rweight for m in mids]
+    norm = sum(wts)
+    out = {}
+    delta = math.radians(sc.delta)
+    for d in range(1, sc.max_d + 1):
+        theta = d * delta
+        if not (amin[s] < theta <= amax[s]):
+            out[d] = 0.0
+            continue
+        k = max(i for i in range(len(edges) - 1) if edges[i] < theta)      # (edge_k, edge_k+1]
+        if min(abs(theta - e) for e in edges) < 1e-9:
+            raise ValueError("a lattice distance coincides with a fine bin edge")
+        out[d] = wts[k] / norm
+    return out
